@@ -379,7 +379,7 @@ pub fn eval(c: &Content, st: &mut Stats, deep: bool) -> Result<(), String> {
     // every single-byte substitution / deletion / insertion at every offset
     // large packages (tens of orders, > 8 KiB): bit flip, digit +-1 and deletion at every offset,
     // insertions and palette substitutions only with two bytes
-    let alts: &[u8] = if large { &SUBST[..2] } else if deep { &SUBST } else { &SUBST[..6] };
+    let alts: &[u8] = if huge { &SUBST[..0] } else if large { &SUBST[..2] } else if deep { &SUBST } else { &SUBST[..6] };
     for i in (0..n).filter(|i| wanted(*i)) {
         let mut v = ob.to_vec();
         // bit flip, digit +-1, then the palette
@@ -397,9 +397,11 @@ pub fn eval(c: &Content, st: &mut Stats, deep: bool) -> Result<(), String> {
                 judge(&mut j, &v, &|| format!("byte {i} replaced by {:?}", a as char))?;
             }
         }
-        let mut d = ob.to_vec();
-        d.remove(i);
-        judge(&mut j, &d, &|| format!("byte {i} deleted"))?;
+        if !huge {
+            let mut d = ob.to_vec();
+            d.remove(i);
+            judge(&mut j, &d, &|| format!("byte {i} deleted"))?;
+        }
     }
     st.add("faults/substitution_deletion_offsets", n as u64);
     for i in (0..=n).filter(|i| wanted(*i)) {
